@@ -412,6 +412,7 @@ func (s *pState) flush(cw *cwriter.Writer, height int, iter <-chan *Bar) error {
 				pending = append(pending, pushData{qb, true})
 			} else if s.popCompleted && !frame.noPop {
 				b.priority = s.popPriority
+				b.popped = true
 				s.popPriority++
 				pending = append(pending, pushData{b, false})
 			} else if !frame.rmOnComplete {
